@@ -175,7 +175,7 @@ def handleSearchMon (j : Json) : R Json := do
   let eps ← arrMapM (← fldArr j "eps") parseEp
   let tier ← fldNat j "tier"
   let hits ← fldHits j "hits"
-  pure (jBool (decide ((hits.length : Int) ≤ cfg.k) && monScope cfg hits && monThreshold cfg hits
+  pure (jBool (monCount cfg hits && monScope cfg hits && monThreshold cfg hits
     && monTier cfg [tier] eps hits && monSearch cfg tier eps hits))
 
 def routes : List (String × (Json → R Json)) :=
